@@ -827,7 +827,7 @@ class MyPyAstVisitor:
             and not (
                 isinstance(attribute_type, mp_types.AnyType) and not has_correct_type_of_any(attribute_type.type_of_any)
             )
-            and not isinstance(attribute_type, mp_types.CallableType)
+            and not (isinstance(attribute_type, mp_types.CallableType) and unanalyzed_type is None)
         ):
             # noinspection PyTypeChecker
             type_ = self.mypy_type_to_abstract_type(attribute_type, unanalyzed_type)
